@@ -67,6 +67,11 @@ var kernelRecv = map[string]reflect.Type{
 	"numerical.Vec2":           reflect.TypeOf(numerical.Vec2{}),
 	"numerical.Vec3":           reflect.TypeOf(numerical.Vec3{}),
 	"numerical.Vec4":           reflect.TypeOf(numerical.Vec4{}),
+	"numerical.Vec":            reflect.TypeOf(numerical.Vec{}),
+	"numerical.Polynomial":     reflect.TypeOf(numerical.Polynomial{}),
+	"model3d.ConvexPolytope":   reflect.TypeOf(model3d.ConvexPolytope{}),
+	"model2d.ConvexPolytope":   reflect.TypeOf(model2d.ConvexPolytope{}),
+	"model2d.BezierCurve":      reflect.TypeOf(model2d.BezierCurve{}),
 }
 
 var kernelFree = map[string]interface{}{
@@ -95,6 +100,11 @@ var kernelFree = map[string]interface{}{
 	"numerical.NewMatrix2Columns":  numerical.NewMatrix2Columns,
 	"numerical.NewMatrix3Columns":  numerical.NewMatrix3Columns,
 	"numerical.NewMatrix4Identity": numerical.NewMatrix4Identity,
+	"model3d.NewConvexPolytopeRect":      model3d.NewConvexPolytopeRect,
+	"model2d.NewConvexPolytopeRect":      model2d.NewConvexPolytopeRect,
+	"model3d.QuarticMetaballFalloffFunc": model3d.QuarticMetaballFalloffFunc,
+	"model2d.QuarticMetaballFalloffFunc": model2d.QuarticMetaballFalloffFunc,
+	"model2d.NewSegmentCurve":            model2d.NewSegmentCurve,
 }
 
 func kernelHook(name string) (interface{}, bool) {
@@ -247,6 +257,152 @@ func callKernel(e go2lean.TableEntry, xs []float64) (out []float64, ok bool) {
 	return out, true
 }
 
+// ---- variable-shape entries (kernelTableV): slices as length + elements, ints and bools as floats
+
+func genValue(c *Ctx, v reflect.Value, mode int, depth int) bool {
+	if depth > 8 || !v.CanSet() {
+		return false
+	}
+	switch v.Kind() {
+	case reflect.Float64:
+		switch mode {
+		case 0:
+			v.SetFloat(c.Dyadic(2, 1))
+		case 1:
+			v.SetFloat(c.Dyadic(8, 4))
+		default:
+			v.SetFloat(c.Rng.NormFloat64() * math.Pow(2, float64(c.Rng.Intn(7)-3)))
+		}
+		return true
+	case reflect.Int:
+		v.SetInt(int64(c.Rng.Intn(5)))
+		return true
+	case reflect.Bool:
+		v.SetBool(c.Rng.Intn(2) == 0)
+		return true
+	case reflect.Ptr:
+		v.Set(reflect.New(v.Type().Elem()))
+		return genValue(c, v.Elem(), mode, depth+1)
+	case reflect.Struct:
+		for i := 0; i < v.NumField(); i++ {
+			if !genValue(c, v.Field(i), mode, depth+1) {
+				return false
+			}
+		}
+		return true
+	case reflect.Array:
+		for i := 0; i < v.Len(); i++ {
+			if !genValue(c, v.Index(i), mode, depth+1) {
+				return false
+			}
+		}
+		return true
+	case reflect.Slice:
+		n := c.Rng.Intn(8)
+		if depth > 0 {
+			n = c.Rng.Intn(4)
+		}
+		sl := reflect.MakeSlice(v.Type(), n, n)
+		for i := 0; i < n; i++ {
+			if !genValue(c, sl.Index(i), mode, depth+1) {
+				return false
+			}
+		}
+		v.Set(sl)
+		return true
+	}
+	return false
+}
+
+func encodeV(v reflect.Value, out *[]float64) bool {
+	switch v.Kind() {
+	case reflect.Float64:
+		*out = append(*out, v.Float())
+		return true
+	case reflect.Int:
+		*out = append(*out, float64(v.Int()))
+		return true
+	case reflect.Bool:
+		if v.Bool() {
+			*out = append(*out, 1)
+		} else {
+			*out = append(*out, 0)
+		}
+		return true
+	case reflect.Ptr:
+		if v.IsNil() {
+			return false
+		}
+		return encodeV(v.Elem(), out)
+	case reflect.Struct:
+		for i := 0; i < v.NumField(); i++ {
+			if !encodeV(v.Field(i), out) {
+				return false
+			}
+		}
+		return true
+	case reflect.Array:
+		for i := 0; i < v.Len(); i++ {
+			if !encodeV(v.Index(i), out) {
+				return false
+			}
+		}
+		return true
+	case reflect.Slice:
+		*out = append(*out, float64(v.Len()))
+		for i := 0; i < v.Len(); i++ {
+			if !encodeV(v.Index(i), out) {
+				return false
+			}
+		}
+		return true
+	}
+	return false
+}
+
+// callKernelV generates type-directed arguments for a variable-shape entry, calls the real function and
+// returns the flat encodings of the arguments (taken BEFORE the call) and of the results.
+func callKernelV(c *Ctx, e go2lean.TableEntry, mode int) (in, out []float64, ok bool) {
+	var fn reflect.Value
+	if hook, isHook := kernelHook(e.Root.String()); isHook {
+		fn = reflect.ValueOf(hook)
+	} else if e.Root.Recv == "" {
+		f, found := kernelFree[e.Root.Dir+"."+e.Root.Name]
+		if !found {
+			return nil, nil, false
+		}
+		fn = reflect.ValueOf(f)
+	} else {
+		rt, found := kernelRecv[e.Root.Dir+"."+e.Root.Recv]
+		if !found {
+			return nil, nil, false
+		}
+		recv := reflect.New(rt)
+		if !genValue(c, recv.Elem(), mode, 0) || !encodeV(recv.Elem(), &in) {
+			return nil, nil, false
+		}
+		fn = recv.MethodByName(e.Root.Name)
+		if !fn.IsValid() {
+			return nil, nil, false
+		}
+	}
+	ft := fn.Type()
+	var args []reflect.Value
+	for i := 0; i < ft.NumIn(); i++ {
+		p := reflect.New(ft.In(i))
+		if !genValue(c, p.Elem(), mode, 0) || !encodeV(p.Elem(), &in) {
+			return nil, nil, false
+		}
+		args = append(args, p.Elem())
+	}
+	for _, r := range fn.Call(args) {
+		if !encodeV(r, &out) {
+			return nil, nil, false
+		}
+	}
+	return in, out, true
+}
+
 func kernelHex(x float64) string {
 	if math.IsNaN(x) {
 		return "nan"
@@ -277,6 +433,50 @@ func RunKernels(c *Ctx, prefix string, n int) {
 			continue
 		}
 		called := 0
+		if e.Var {
+			for k := 0; k < n; k++ {
+				var in, out []float64
+				var ok bool
+				res := Guard(func() string {
+					in, out, ok = callKernelV(c, e, c.Rng.Intn(3))
+					return ""
+				})
+				if res != "" {
+					c.Stat("gk.panic", 1)
+					continue
+				}
+				if !ok {
+					c.Stat("gk.not-callable."+e.Root.String(), 1)
+					break
+				}
+				bad := false
+				for _, o := range out {
+					if math.IsNaN(o) || math.IsInf(o, 0) {
+						bad = true
+					}
+				}
+				if bad {
+					c.Stat("gk.nan-or-inf-skipped", 1)
+					continue
+				}
+				called++
+				ins := make([]string, len(in))
+				for i, x := range in {
+					ins[i] = Hex(x)
+				}
+				outs := make([]string, len(out))
+				for i, o := range out {
+					outs[i] = kernelHex(o)
+				}
+				c.EmitSite(prefix+" gk "+e.Root.String()+" "+strings.Join(ins, " "), strings.Join(outs, " "), "kernels:generated-definition-differs-from-source/"+e.Root.String())
+			}
+			if called > 0 {
+				c.Stat("gk.functions-executed", 1)
+				c.Stat("gk.variable-shape-functions-executed", 1)
+			}
+			c.Stat("gk.cases", called)
+			continue
+		}
 		for k := 0; k < n; k++ {
 			xs := make([]float64, e.NIn)
 			mode := c.Rng.Intn(3)
